@@ -26,6 +26,7 @@ def dispatch (line : String) : String :=
   | "num" :: rest => numberLine rest
   | "big" :: rest => bigLine rest
   | "jt" :: "pevents" :: rest => jsonParserLine ("pevents" :: rest)
+  | "bigl" :: rest => bigLimbLine rest
   | "jt" :: rest => jsonTextLine rest
   | "src" :: rest => sourceLine rest
   | "bin" :: rest => binaryLine rest
